@@ -270,7 +270,7 @@ def size_alphabet(limit, ovf, cur):
     return sorted(x for x in s if 0 <= x <= 40000)
 
 
-def gen_history(rng, limit, ovf, nops, p_invalid=0.06, p_close=0.02):
+def gen_history(rng, limit, ovf, nops, p_invalid=0.06, p_close=0.008):
     """boundary-biased history; tracks the logical length to aim sizes at it"""
     src = Bytesrc()
     cur = 0
@@ -315,13 +315,14 @@ def gen_history(rng, limit, ovf, nops, p_invalid=0.06, p_close=0.02):
     return (limit, ovf, ops)
 
 
-def threshold_grid(tier):
+def threshold_grid(real_limit=8192):
     """(limit, overflow) pairs: small limits and the real 8192; overflow in {0, 1, small, large}"""
     out = []
     for limit in (0, 1, 2, 8, 16):
         for ovf in sorted({0, 1, limit - 1, limit, limit + 1, 2 * limit + 3, 5 * limit + 7, 1 << 20} - {-1}):
             out.append((limit, ovf))
-    big = [(8192, 0), (8192, 1), (8192, 8191), (8192, 8192), (8192, 8193), (8192, 20000), (8192, 1 << 20)]
+    L = real_limit
+    big = [(L, 0), (L, 1), (L, L - 1), (L, L), (L, L + 1), (L, 2 * L + 3616), (L, 1 << 20)]
     return out, big
 
 
